@@ -60,3 +60,11 @@ func (s *SpareSet) Check(o *Obs) bool {
 	}
 	return true
 }
+
+// NilIfEmpty returns nil instead of an empty slice when sel is odd: nil and empty inputs must be treated alike.
+func NilIfEmpty(b []byte, sel byte) []byte {
+	if len(b) == 0 && sel&1 == 1 {
+		return nil
+	}
+	return b
+}
